@@ -7,7 +7,9 @@ per-linter ignore patterns, repository-level ignore, file-placement directory ru
   * from the project root, a sub-directory, the parent directory, an unrelated directory, and an unrelated directory
     that has its own .thailintignore (catch-all) and a copy of the project's .thailint.yaml,
   * with the targets written absolute, relative, "./"-prefixed, with a redundant "sub/../sub" hop, with a trailing slash,
-  * for the whole project, a sub-directory, one file, several files,
+    and - for invocations with several targets - with a DIFFERENT spelling per target (absolute next to relative, in both
+    orders; "./" + absolute + redundant hop),
+  * for the whole project, a sub-directory, one file, several files, several directories,
 for every CLI command. Oracle: the multiset of violations, with every printed path rewritten to the project-relative
 path (vf/oracle/c09_norm.py), equals that of the canonical invocation: same targets, innocuous parent `x`,
 cwd = project root, targets written relative to the root (`.` for the project).
@@ -31,10 +33,12 @@ from vf.project import Project, to_yaml
 
 ID = "C09"
 TECHNIQUE = ("metamorphic/differential testing over a covering matrix (every parent-directory name x every command; every "
-             "cwd x spelling x target combination) plus Hypothesis-drawn cells (two-level parent chains, project variants); "
+             "cwd x spelling x target combination; every cwd x per-target mixed spelling for multi-target invocations) plus Hypothesis-drawn cells (two-level parent chains, project variants); "
              "path-normalised violation multisets compared with a canonical invocation; known deviations modelled explicitly")
 RULE = (
-    "case = (project variant, command, parent-directory chain of 1-2 names, cwd kind, spelling, target kind, execution mode). "
+    "case = (project variant, command, parent-directory chain of 1-2 names, cwd kind, spelling, target kind, execution mode); the "
+    "spelling is one form for all targets or, with several targets (several files / several directories), a rotation of forms "
+    "over the targets that mixes absolute and relative ones. "
     "The project is rebuilt below the chain, the command is run from the cwd with the targets spelled as drawn, and the "
     "path-normalised violation multiset must equal the canonical run (parent x, cwd = root, relative targets). "
     "Non-trivial: the canonical run has >= 1 violation for the command and target, and the cell differs from the canonical "
@@ -102,6 +106,8 @@ def canonical(variant: int, cmd: str, target: str):
 def valid(case) -> bool:
     if case["spelling"] in ("slash", "abs-slash") and not G.is_dir_target(case["target"]):
         return False
+    if G.is_mixed(case["spelling"]) and case["target"] not in G.MULTI_TARGETS:
+        return False
     return True
 
 
@@ -147,7 +153,7 @@ def check(case) -> Case:
                "unrelated-ignorefile": withcfg}[cwd_kind]
         trel = G.target_paths(targets, meta, target, cmd)
         isdir = G.is_dir_target(target)
-        args = [G.spell(p.root, cwd, t, spelling, isdir) for t in trel]
+        args = G.spell_all(p.root, cwd, trel, spelling, isdir)
         cli = [cmd, "--format", "json", *args]
         r = runner.run_cli_sub(cli, cwd) if mode == "S" else runner.run_cli(cli, cwd)
         bad = _healthy(r)
@@ -205,10 +211,14 @@ def all_pairs():
     return [(cmd, target) for cmd in G.COMMANDS for target in G.TARGETS]
 
 
+def multi_pairs():
+    return [(cmd, target) for cmd in G.COMMANDS for target in G.MULTI_TARGETS]
+
+
 def shard_pairs(shard, nshards):
     """(command, target) pairs of one shard: keeps the number of canonical runs per process small (each shard needs the
     canonical multisets of its own pairs only) and gives every shard a mix of commands and target kinds."""
-    return [(c, t) for (c, t) in all_pairs() if (G.COMMANDS.index(c) + 3 * G.TARGETS.index(t)) % nshards == shard]
+    return [(c, t) for c in G.COMMANDS for t in G.ALL_TARGETS if (G.COMMANDS.index(c) + 3 * G.ALL_TARGETS.index(t)) % nshards == shard]
 
 
 def cases(variants, pairs):
@@ -217,24 +227,42 @@ def cases(variants, pairs):
         "pair": st.sampled_from(pairs),
         "chain": _chains(),
         "cwd": st.sampled_from(G.CWDS),
-        "spelling": st.sampled_from(G.SPELLINGS),
+        "spelling": st.sampled_from(G.SPELLINGS + G.MIXED_SPELLINGS),
         "mode": st.sampled_from(["P"] * 24 + ["S"]),
     }).map(lambda d: {"variant": d["variant"], "cmd": d["pair"][0], "chain": d["chain"], "cwd": d["cwd"], "spelling": d["spelling"],
                       "target": d["pair"][1], "mode": d["mode"]}).filter(valid)
 
 
-def _cwd_spellings(target):
-    return [(cw, sp) for cw in G.CWDS for sp in G.SPELLINGS if valid({"spelling": sp, "target": target})]
+def _cwd_spellings(target, spellings=G.SPELLINGS):
+    return [(cw, sp) for cw in G.CWDS for sp in spellings if valid({"spelling": sp, "target": target})]
 
 
 def quick_matrix(pairs):
     """Per (command, target) pair: (A) every test-marker name, every default-ignore name, 4 of the 15 excluded-directory
     names (rotating, so each command sees all of them over its 4 target kinds) and an innocuous name, with cwd x spelling
-    rotating; (B) every cwd with 2 rotating spellings below an innocuous parent, project variant 1."""
+    rotating; (B) every cwd with 2 rotating spellings below an innocuous parent, project variant 1.
+    Per (command, multi-target kind) pair: (C) every cwd with 2 of the 3 mixed per-target spellings (several files) or with one
+    mixed and one uniform spelling (several directories), rotating, below an innocuous parent, variants alternating."""
     cells = []
     allp = all_pairs()
+    multi = multi_pairs()
     for pair in pairs:
         cmd, target = pair
+        if target in G.MULTI_TARGETS:
+            j = multi.index(pair)
+            # every cwd with 2 (several files) or 1 (several directories: the expensive cells) of the mixed spellings, rotating
+            # with the command so that every (cwd, mixed spelling) combination occurs for most commands
+            nm = len(G.MIXED_SPELLINGS)
+            mixed = [(cw, G.MIXED_SPELLINGS[(j + k + m) % nm]) for k, cw in enumerate(G.CWDS) for m in range(2 if target in G.TARGETS else 1)]
+            for k, (cw, sp) in enumerate(mixed):
+                cells.append({"variant": (j + k) % 2, "cmd": cmd, "chain": [G.INNOCUOUS[(j + k) % len(G.INNOCUOUS)]], "cwd": cw,
+                              "spelling": sp, "target": target, "mode": "S" if (j * 15 + k) % 211 == 0 else "P"})
+        if target not in G.TARGETS:
+            sps = [sp for sp in G.SPELLINGS if valid({"spelling": sp, "target": target})]
+            for k, cw in enumerate(G.CWDS):
+                cells.append({"variant": 0, "cmd": cmd, "chain": [G.INNOCUOUS[(j + k) % len(G.INNOCUOUS)]], "cwd": cw,
+                              "spelling": sps[(j + k) % len(sps)], "target": target, "mode": "P"})
+            continue
         j = allp.index(pair)
         cs = _cwd_spellings(target)
         excl = [G.EXCLUDED_DIRS[(4 * G.TARGETS.index(target) + k + G.COMMANDS.index(cmd)) % len(G.EXCLUDED_DIRS)] for k in range(4)]
@@ -253,11 +281,20 @@ def quick_matrix(pairs):
 
 
 def full_matrix(pairs, variant=0):
+    """Full product over the single-spelling kinds; the mixed per-target spellings (and all spellings of the
+    several-directories kind) below one name of every parent class."""
     cells = []
+    some = [G.INNOCUOUS[0], G.EXCLUDED_DIRS[0], G.TEST_MARKERS[0], G.DEFAULT_IGNORE_NAMES[0]]
     for cmd, target in pairs:
-        for n in G.PARENT_NAMES:
-            for cw, sp in _cwd_spellings(target):
-                cells.append({"variant": variant, "cmd": cmd, "chain": [n], "cwd": cw, "spelling": sp, "target": target, "mode": "P"})
+        if target in G.TARGETS:
+            for n in G.PARENT_NAMES:
+                for cw, sp in _cwd_spellings(target):
+                    cells.append({"variant": variant, "cmd": cmd, "chain": [n], "cwd": cw, "spelling": sp, "target": target, "mode": "P"})
+        if target in G.MULTI_TARGETS:
+            sps = G.MIXED_SPELLINGS if target in G.TARGETS else G.SPELLINGS + G.MIXED_SPELLINGS
+            for n in some:
+                for cw, sp in _cwd_spellings(target, sps):
+                    cells.append({"variant": variant, "cmd": cmd, "chain": [n], "cwd": cw, "spelling": sp, "target": target, "mode": "P"})
     return cells
 
 
@@ -276,13 +313,15 @@ def run(ctx):
         done = ctx.each(cells, check)
         ctx.stats.extra.setdefault("matrix", {})[
             "per (command,target): all test-marker + default-ignore names, 4 rotating excluded-dir names, 1 innocuous (cwd x spelling "
-            "rotating); every cwd x 2 rotating spellings below an innocuous parent"] = {"cells": len(cells), "done": done}
+            "rotating); every cwd x 2 rotating spellings below an innocuous parent; per (command, several files | several directories): "
+            "every cwd x 2 rotating mixed per-target spellings (files), x 1 rotating mixed + 1 rotating uniform spelling (directories)"] = {"cells": len(cells), "done": done}
         ctx.explore(cases([0, 1], pairs), check, max_examples=ctx.n(25, 0), salt=1)
     else:
         ctx.explore(cases([0, 1, 2, 3], pairs), check, max_examples=ctx.n(0, 100), salt=2)
         cells = _interleave(full_matrix(pairs), 97)
         done = ctx.each(cells, check)
-        ctx.stats.extra.setdefault("matrix", {})["full product: parent name x cwd x spelling x target x command, variant 0"] = {"cells": len(cells), "done": done}
+        ctx.stats.extra.setdefault("matrix", {})["full product: parent name x cwd x spelling x target x command, variant 0; "
+                                                 "mixed per-target spellings and the several-directories kind below one name per parent class"] = {"cells": len(cells), "done": done}
         ctx.explore(cases([0, 1, 2, 3], pairs), check, max_examples=ctx.n(0, 400), salt=1)
 
 
